@@ -1116,6 +1116,25 @@ func decodeScenarios(d *decodeCtx, thoroughTier bool) map[string]choice.Scenario
 		d.prior = nil
 	}
 	// many member names, each of them twice (work and memory must stay linear in the input)
+	// ONE member name that the destination knows, repeated many times (every repeat replaces an entry that is there)
+	sc["json-one-name-repeated"] = func(c *choice.Ctx) {
+		name := []string{"a", "psa-client-id", "psa-nonce", "psa-software-components", "measurement-value", "eat-profile", "psa-profile", "extra"}[c.Choose("name", 8)]
+		mi := c.Choose("repeats", 4)
+		if !d.mine(mi) {
+			return
+		}
+		m := []int{100, 2000, 12000, 40000}[mi]
+		var sb strings.Builder
+		sb.WriteString("{")
+		for i := 0; i < m; i++ {
+			if i > 0 {
+				sb.WriteString(",")
+			}
+			fmt.Fprintf(&sb, `%q:7`, name)
+		}
+		sb.WriteString("}")
+		d.feed(c, []byte(sb.String()), 1, fmt.Sprintf("member %q %d times", name, m))
+	}
 	sc["json-repeated-names"] = func(c *choice.Ctx) {
 		mi := c.Choose("distinct-names", 3)
 		if !d.mine(mi) {
@@ -1140,8 +1159,8 @@ func decodeScenarios(d *decodeCtx, thoroughTier bool) map[string]choice.Scenario
 	depths := []int{16, 31, 32, 33, 1000, 10001, 32768, 1 << 21, 1 << 23, 1 << 24}
 	sc["nesting"] = func(c *choice.Ctx) {
 		di := c.Choose("depth", len(depths))
-		shape := c.Choose("shape", 8)
-		if !d.mine(di*8 + shape) {
+		shape := c.Choose("shape", 10)
+		if !d.mine(di*10 + shape) {
 			return
 		}
 		n := depths[di]
@@ -1162,13 +1181,17 @@ func decodeScenarios(d *decodeCtx, thoroughTier bool) map[string]choice.Scenario
 			in = append(bytesRepeat([]byte{0xc1}, n), 0x00)
 		case 3:
 			in = append(bytesRepeat([]byte{0x9f}, n), bytesRepeat([]byte{0xff}, n)...)
-		case 6, 7: // byte strings wrapping byte strings (6: around a claims map, 7: around an envelope)
-			seed := c02SeedBytes(shape == 7)
+		case 6, 7, 8, 9: // byte strings wrapping byte strings (6: around a claims map, 7: around an envelope); 8, 9: the same with
+			// every byte string inside tag 24 ("encoded CBOR data item")
+			seed := c02SeedBytes(shape == 7 || shape == 9)
 			var heads [][]byte
 			size := len(seed)
-			for i := 0; i < n && size < 65536-9; i++ {
+			for i := 0; i < n && size < 65536-11; i++ {
 				h := mcbor.Encode(mcbor.B(make([]byte, size)))
 				h = h[:len(h)-size]
+				if shape >= 8 {
+					h = append([]byte{0xd8, 0x18}, h...)
+				}
 				heads = append(heads, h)
 				size += len(h)
 			}
@@ -1228,9 +1251,9 @@ func bytesRepeat(b []byte, n int) []byte {
 // plan lists (scenario, deviation bound) per tier.
 func decodePlan(thoroughTier bool) [][2]any {
 	if !thoroughTier {
-		return [][2]any{{"s0.seeds-first", -1}, {"s1.short-bytes", -1}, {"s2.byte-closure", -1}, {"s3.tree-closure", 4}, {"s3.json-closure", 4}, {"hostile-heads", -1}, {"nesting", -1}, {"after-large-input", -1}, {"json-repeated-names", -1}, {"s3.json-respelled-members", -1}}
+		return [][2]any{{"s0.seeds-first", -1}, {"s1.short-bytes", -1}, {"s2.byte-closure", -1}, {"s3.tree-closure", 4}, {"s3.json-closure", 4}, {"hostile-heads", -1}, {"nesting", -1}, {"after-large-input", -1}, {"json-repeated-names", -1}, {"json-one-name-repeated", -1}, {"s3.json-respelled-members", -1}}
 	}
-	return [][2]any{{"s0.seeds-first", -1}, {"s1.short-bytes", -1}, {"s2.byte-closure", -1}, {"s3.tree-closure", -1}, {"s3.json-closure", -1}, {"hostile-heads", -1}, {"nesting", -1}, {"after-large-input", -1}, {"json-repeated-names", -1}, {"s3.json-respelled-members", -1}, {"s2.head-pairs", -1}, {"s1.three-bytes", -1}}
+	return [][2]any{{"s0.seeds-first", -1}, {"s1.short-bytes", -1}, {"s2.byte-closure", -1}, {"s3.tree-closure", -1}, {"s3.json-closure", -1}, {"hostile-heads", -1}, {"nesting", -1}, {"after-large-input", -1}, {"json-repeated-names", -1}, {"json-one-name-repeated", -1}, {"s3.json-respelled-members", -1}, {"s2.head-pairs", -1}, {"s1.three-bytes", -1}}
 }
 
 // Workers maps property id -> worker body.
